@@ -83,6 +83,10 @@ func (srv *Server) ListenAndServe() error {
 
 	err := eg.Wait()
 
+	// No transport is queued anymore at this point, so
+	// close the ones that were accepted but not served.
+	srv.closeQueuedTransports()
+
 	if errors.Is(err, ctx.Err()) {
 		return ErrServerClosed
 	}
@@ -97,6 +101,7 @@ func acceptTransports(ctx context.Context, listener TransportListener, c chan<- 
 		}
 		select {
 		case <-ctx.Done():
+			_ = transport.Close()
 			return ctx.Err()
 		case c <- transport:
 		}
@@ -183,8 +188,20 @@ func (srv *Server) Close() error {
 		}
 	}
 
-	close(srv.transportChan)
+	// The transport queue is not closed here, since the accept and consume
+	// goroutines may still be sending to or receiving from it.
 	return multierr.Combine(errs...)
+}
+
+func (srv *Server) closeQueuedTransports() {
+	for {
+		select {
+		case t := <-srv.transportChan:
+			_ = t.Close()
+		default:
+			return
+		}
+	}
 }
 
 // ServerConfig define the configurations for a Server instance.
